@@ -1952,6 +1952,20 @@ fn generate_packet_view(
                 }
             }
         }
+        // The array accessors are bounded by the element count and element
+        // size read by the parent.
+        for f in scope.iter_parent_fields(decl) {
+            match &f.desc {
+                ast::FieldDesc::Count { field_id, .. } => {
+                    field_parsers.push(format!("{0}_count_ = parent.{0}_count_;", field_id));
+                }
+                ast::FieldDesc::ElementSize { field_id, .. } => {
+                    field_parsers
+                        .push(format!("{0}_element_size_ = parent.{0}_element_size_;", field_id));
+                }
+                _ => (),
+            }
+        }
     }
 
     if decl.fields().next().is_some() {
